@@ -18,7 +18,7 @@ def run(tier: str) -> int:
         if not s["hits"] and not s["holds"]:
             continue
         scns.append({"id": f"m{i}", "layout": s["layout"], "hits": s["hits"], "holds": s["holds"], "tempo": s["tempo"],
-                     "shuffle": i % 2 == 1, "via": i % 3 == 2, "unknown_samples": i % 7 == 0})
+                     "shuffle": i % 2 == 1, "via": i % 3 == 2, "rewrite": i % 5 == 3, "unknown_samples": i % 7 == 0})
         if len(scns) >= (5000 if tier == "quick" else 50000):
             break
     scns += drv.random_scenarios(600 if tier == "quick" else 8000, tier)
